@@ -19,7 +19,11 @@ import (
 	"testing"
 	"time"
 
+	"github.com/fabiolb/fabio/route"
 	"github.com/fabiolb/fabio/zzverif/ev"
+	"github.com/fabiolb/fabio/zzverif/vhook"
+	"github.com/fabiolb/fabio/zzverif/vnet"
+	"github.com/fabiolb/fabio/zzverif/vsched"
 )
 
 // C10: SNI routing uses the server name the TLS stack itself would see.
@@ -203,6 +207,47 @@ func c10Reassemble(rec []byte) []c10Hello {
 		}
 	}
 	var out []c10Hello
+	// variants of the fixed part: what clients other than crypto/tls put there
+	q := 4 + 2 + 32
+	sidLen := int(hs[q])
+	sid := hs[q+1 : q+1+sidLen]
+	q += 1 + sidLen
+	csLen := int(hs[q])<<8 | int(hs[q+1])
+	cs := hs[q+2 : q+2+csLen]
+	q += 2 + csLen
+	comp := hs[q+1 : q+1+int(hs[q])]
+	fixed := hs[4 : 4+2+32]
+	buildHead := func(ver []byte, sid, cs, comp []byte, l []ext) []byte {
+		var body []byte
+		body = append(body, ver...)
+		body = append(body, fixed[2:]...)
+		body = append(body, byte(len(sid)))
+		body = append(body, sid...)
+		body = append(body, byte(len(cs)>>8), byte(len(cs)))
+		body = append(body, cs...)
+		body = append(body, byte(len(comp)))
+		body = append(body, comp...)
+		if l != nil {
+			var eb []byte
+			for _, e := range l {
+				eb = append(eb, byte(e.typ>>8), byte(e.typ), byte(len(e.body)>>8), byte(len(e.body)))
+				eb = append(eb, e.body...)
+			}
+			body = append(body, byte(len(eb)>>8), byte(len(eb)))
+			body = append(body, eb...)
+		}
+		msg := append([]byte{1, byte(len(body) >> 16), byte(len(body) >> 8), byte(len(body))}, body...)
+		return append([]byte{0x16, 3, 1, byte(len(msg) >> 8), byte(len(msg))}, msg...)
+	}
+	ver := fixed[:2]
+	out = append(out, c10Hello{"assembled: compression methods {DEFLATE, null} (OpenSSL with zlib)", buildHead(ver, sid, cs, []byte{1, 0}, list)})
+	out = append(out, c10Hello{"assembled: compression methods {null, DEFLATE}", buildHead(ver, sid, cs, []byte{0, 1}, list)})
+	out = append(out, c10Hello{"assembled: empty session id", buildHead(ver, nil, cs, comp, list)})
+	out = append(out, c10Hello{"assembled: 32-byte session id", buildHead(ver, bytes.Repeat([]byte{7}, 32), cs, comp, list)})
+	out = append(out, c10Hello{"assembled: one cipher suite + SCSV", buildHead(ver, sid, []byte{0xc0, 0x2f, 0x00, 0xff}, comp, list)})
+	out = append(out, c10Hello{"assembled: 300 cipher suites", buildHead(ver, sid, bytes.Repeat([]byte{0xc0, 0x2f}, 300), comp, list)})
+	out = append(out, c10Hello{"assembled: legacy version TLS 1.0", buildHead([]byte{3, 1}, sid, cs, comp, list)})
+	out = append(out, c10Hello{"assembled: unknown extensions (GREASE) around sni", buildHead(ver, sid, cs, comp, append(append([]ext{{0x0a0a, nil}}, list...), ext{0xfafa, []byte{0}}))})
 	out = append(out, c10Hello{"assembled: sni first", build(append([]ext{sni}, rest...))})
 	out = append(out, c10Hello{"assembled: sni last", build(append(append([]ext{}, rest...), sni))})
 	out = append(out, c10Hello{"assembled: no sni", build(rest)})
@@ -375,5 +420,107 @@ func TestVerifC10SNI(t *testing.T) {
 		}
 	})
 	// every length field of a simple hello set to boundary values
+	L.End(true)
+}
+
+// the same hellos arriving in pieces through the real SNIProxy.ServeTCP: the
+// route lookup must see the TLS stack's name however the bytes are segmented.
+func TestVerifC10Segments(t *testing.T) {
+	L := ev.Begin("C10", "c10-segments", "exploration",
+		"a subset of the corpus (smallest, typical, post-quantum ~1.5 kB, padded beyond bufio's 4096-byte buffer, padded to a full 16 kB record, assembled variants) delivered to the real tcp.SNIProxy.ServeTCP over an in-memory connection in 2 segments split at every offset class (every offset up to 16, every 7th after, the last 3) and in 3 segments at (5, 9+k); oracle: Lookup is called exactly once with the name tls.Server sees for the same bytes, and the upstream receives exactly the bytes sent. non-trivial = every (hello, split) pair")
+	corpus := c10Corpus()
+	var pick []c10Hello
+	seenLen := map[int]bool{}
+	for _, h := range corpus {
+		name, ok := stackServerName(h.raw)
+		if !ok || name == "" {
+			continue
+		}
+		bucket := len(h.raw) / 400
+		if strings.HasPrefix(h.desc, "assembled") || strings.Contains(h.desc, "resumption") || !seenLen[bucket] {
+			seenLen[bucket] = true
+			pick = append(pick, h)
+		}
+	}
+	L.Set("hellos", len(pick))
+	type job struct {
+		h    c10Hello
+		cuts []int
+	}
+	var jobs []job
+	for _, h := range pick {
+		n := len(h.raw)
+		for c := 1; c < n; c++ {
+			if c <= 16 || c%7 == 0 || c >= n-3 || !(!ev.Thorough()) {
+				jobs = append(jobs, job{h, []int{c}})
+			}
+		}
+		for k := 1; k < n-10; k += 61 {
+			jobs = append(jobs, job{h, []int{5, 9 + k}})
+		}
+	}
+	si, sn := ev.Shard()
+	for ji, j := range jobs {
+		if sn > 1 && ji%sn != si {
+			continue
+		}
+		want, _ := stackServerName(j.h.raw)
+		var looked []string
+		var upGot []byte
+		tgt := c09Target("sni", false)
+		// the default schedule and the first few alternative orders of blocked threads
+		st := vsched.Explore(vsched.Options{Bound: 0, AllowDeadlock: true, MaxExecs: 4}, func(x *vsched.X) {
+			looked, upGot = nil, nil
+			env := &vnet.Env{}
+			vhook.DialHook = env.DialTimeout
+			in, client := vnet.Pair("in", &net.TCPAddr{IP: net.IPv4(10, 0, 0, 1), Port: 443}, "client", &net.TCPAddr{IP: net.IPv4(192, 0, 2, 7), Port: 51000})
+			p := &SNIProxy{Lookup: func(host string) *route.Target { looked = append(looked, host); return tgt }}
+			x.Go("proxy", func() { p.ServeTCP(in) })
+			x.Go("client", func() {
+				prev := 0
+				for _, c := range append(append([]int{}, j.cuts...), len(j.h.raw)) {
+					if c > len(j.h.raw) {
+						c = len(j.h.raw)
+					}
+					if c > prev {
+						client.Write(j.h.raw[prev:c])
+					}
+					prev = c
+				}
+				client.Write([]byte("after-hello"))
+				client.CloseWrite()
+			})
+			x.Go("upstream", func() {
+				vsched.BlockUntil("accept", func() bool { return len(env.Accepted) > 0 || in.Closed() })
+				if len(env.Accepted) == 0 {
+					return
+				}
+				b := make([]byte, 32768)
+				for {
+					n, err := env.Accepted[0].Read(b)
+					upGot = append(upGot, b[:n]...)
+					if err != nil {
+						return
+					}
+				}
+			})
+			x.Run()
+			vhook.DialHook = nil
+		})
+		_ = st
+		L.Case()
+		L.NontrivialKey(fmt.Sprint(j.h.desc, j.cuts))
+		d := map[string]interface{}{"hello": j.h.desc, "len": len(j.h.raw), "segment_boundaries": j.cuts, "lookups": looked, "tls_stack_name": want}
+		L.Sample(d)
+		L.Outcome(fmt.Sprint(looked))
+		if len(looked) != 1 || looked[0] != want {
+			L.Violation("segmented-hello-routed-by-another-name-or-not-at-all", d)
+			continue
+		}
+		if !bytes.Equal(upGot, append(append([]byte{}, j.h.raw...), []byte("after-hello")...)) {
+			d["upstream_received"] = len(upGot)
+			L.Violation("segmented-hello-not-replayed-exactly", d)
+		}
+	}
 	L.End(true)
 }
